@@ -116,17 +116,24 @@ Definition op_cert : opfun := fun zs qs =>
 
 (* ---- eigh -> clip -> rebuild.  zs = [n] ; qs = w (n reals) ++ U (n*n complex, interleaved, row-major).
    reply = U diag(clip(w)) U^dagger (n*n complex, interleaved) *)
+(* the executed form: intermediate products are frozen (function-matrices recompute entries on every access) *)
+Definition eig_clip_fast (n : nat) (w : nat -> Qc) (U : cmat Qc_OF) : cmat Qc_OF :=
+  let wf := vfreeze 0%Qc n w in
+  let Uf : cmat Qc_OF := freeze (0%Qc, 0%Qc) n n U in
+  let UD : cmat Qc_OF := freeze (0%Qc, 0%Qc) n n (mmul n Uf (@cdiag Qc_OF (fun k => @clip0 Qc_OF (wf k)))) in
+  mmul n UD (cadj Uf).
+(* ... computes the model Model/C04_EigClip.v eig_clip (the subject of C04_eig_clip_nearest) entry by entry *)
+Lemma eig_clip_fast_eq n (w : nat -> Qc) (U : cmat Qc_OF) i j : (i < n)%nat -> (j < n)%nat ->
+  eig_clip_fast n w U i j = @eig_clip Qc_OF n U w i j.
+Proof. intros Hi Hj. unfold eig_clip_fast, eig_clip, rebuild. unfold mmul at 1 3. apply sumn_ext; intros k Hk.
+  rewrite freeze_spec by assumption. unfold cadj. rewrite (freeze_spec (0%Qc, 0%Qc) n n U j k Hj Hk). f_equal.
+  unfold mmul. apply sumn_ext; intros l Hl. rewrite (freeze_spec (0%Qc, 0%Qc) n n U i l Hi Hl). f_equal.
+  unfold cdiag. destruct (Nat.eqb l k); [|reflexivity]. now rewrite vfreeze_spec by exact Hl. Qed.
 Definition op_eig_clip : opfun := fun zs qs =>
   match zs with
   | [n] => let n' := Z.to_nat n in
-      let w := vfreeze 0%Qc n' (vl (firstn n' qs)) in
-      let U : cmat Qc_OF := freeze (0%Qc, 0%Qc) n' n' (cmat_of_flat n' n' (skipn n' qs)) in
-      let UD : cmat Qc_OF := freeze (0%Qc, 0%Qc) n' n' (mmul n' U (@cdiag Qc_OF (fun k => @clip0 Qc_OF (w k)))) in
-      Ok (flat_of_cmat n' n' (mmul n' UD (cadj U)))
+      Ok (flat_of_cmat n' n' (eig_clip_fast n' (vl (firstn n' qs)) (cmat_of_flat n' n' (skipn n' qs))))
   | _ => Err (-1) end.
-Lemma op_eig_clip_is_model n (w : nat -> Qc) (U : cmat Qc_OF) i j :
-  mmul n (mmul n U (@cdiag Qc_OF (fun k => @clip0 Qc_OF (w k)))) (cadj U) i j = @eig_clip Qc_OF n U w i j.
-Proof. reflexivity. Qed.
 
 Definition C04_ops : optable :=
   [ ("c04.state_proj_eq"%string, op_state_proj_eq);
